@@ -91,11 +91,11 @@ func (r *Route) match(detectionPath, path string, params *[maxParams]string) boo
 		// Single slash or prefix match
 		plen := len(r.path)
 		if r.root {
-			// If r.root is '/', it matches everything starting at '/'
-			if len(detectionPath) > 0 && detectionPath[0] == '/' {
-				return true
-			}
-		} else if len(detectionPath) >= plen && detectionPath[:plen] == r.path {
+			// If r.root is '/', it matches everything: a detection path starts at '/' or is empty
+			// (a path of slashes only, all of them trimmed as trailing slashes)
+			return true
+		}
+		if len(detectionPath) >= plen && detectionPath[:plen] == r.path {
 			return true
 		}
 	} else if len(r.path) == len(detectionPath) && detectionPath == r.path {
